@@ -227,7 +227,7 @@ def crc64 (t : Token) : Nat :=
 /-- (file, function, operation, key expression) of every lookup on a token-handler table -/
 def expectedLookups : List (String × String × String × String) := [
   ("tcp/client/conn.go", "Conn.doInternal", "LoadAndDelete", "token.Hash()"),
-  ("tcp/client/conn.go", "Conn.AsyncPing", "LoadAndDelete", "token.Hash()"),
+  ("tcp/client/conn.go", "Conn.asyncPing", "LoadAndDelete", "token.Hash()"),
   ("tcp/client/conn.go", "Conn.blockwiseHandle", "Load", "r.Token().Hash()"),
   ("tcp/client/conn.go", "Conn.handle", "LoadAndDelete", "r.Token().Hash()"),
   ("tcp/client/conn.go", "Conn.handleSignals", "LoadAndDelete", "r.Token().Hash()"),
@@ -238,7 +238,7 @@ def expectedLookups : List (String × String × String × String) := [
 /-- (file, function, operation, key, removal) of the registrations on the token-handler tables -/
 def expectedRegistrations : List (String × String × String × String × List String) := [
   ("tcp/client/conn.go", "Conn.doInternal", "LoadOrStore", "token.Hash()", ["defer"]),
-  ("tcp/client/conn.go", "Conn.AsyncPing", "LoadOrStore", "token.Hash()", ["returned-closure"]),
+  ("tcp/client/conn.go", "Conn.asyncPing", "LoadOrStore", "token.Hash()", ["returned-closure"]),
   ("udp/client/conn.go", "Conn.doInternal", "LoadOrStore", "token.Hash()", ["defer"])]
 
 end CoapVerif.Model.TokenTable
